@@ -186,7 +186,7 @@ def rand_string(rng, long_ok=False):
         return rng.choice(PLAIN)
     n = rng.choice([1, 1, 2, 3, 5, 8])
     if long_ok and rng.random() < 0.03:
-        n = rng.choice([200, 3000, 250_000 // 8])
+        n = rng.choice([200, 3000])
     parts = []
     for _ in range(n):
         k = rng.random()
@@ -453,6 +453,10 @@ def run(ctx):
         vals[i] = ch
         add_loc_cases((DEFAULT_ROOT, *vals))
         add_loc_cases(('r' + ch, *vals))
+    if ctx.tier == 'thorough':
+        # quote_from_bytes switches to a chunked implementation at 200 000 bytes
+        big = ''.join(rng.choice(['a', ' ', '/', 'é', '%', '+']) for _ in range(210_000))
+        add_loc_cases((DEFAULT_ROOT, 'x', None, big, None, None, None))
     # empty root (outside the domain: recorded, and the model must still say what the code does)
     for _ in range(ctx.n(5, 40)):
         add_loc_cases(rand_loc(rng, root=''))
